@@ -109,7 +109,7 @@ def stopcheck_level():
 
 
 def run():
-    chk = Check("C14", props_modules=["GFO.Props.C14", "GFO.Gen.StopGenCheck"], gen_steps=(translators.gen_stop,))
+    chk = Check("C14", props_modules=["GFO.Props.C14", "GFO.Gen.StopGenCheck", "GFO.Gen.DriverGenCheck"], gen_steps=(translators.gen_stop, translators.gen_driver,))
     chk.build_and_audit()
     r = C.rng("C14")
     quick = C.tier() != "thorough"
